@@ -33,7 +33,7 @@ fn value(rng: &mut Rng, max: i64, allow_neg: bool) -> f64 {
     }
 }
 
-const IDS: &[&str] = &["1ABC", "x", "TEST_01", "7xyz", "4HHB", "A-B", "id.1"];
+const IDS: &[&str] = &["1ABC", "x", "TEST_01", "7xyz", "4HHB", "A-B", "id.1", "1E12", "2E10", "0123", "1.50", "+1", "12", "1e5"];
 
 pub fn build(rng: &mut Rng, i: usize) -> PDB {
     let sh = Shape {
